@@ -2,7 +2,8 @@
 // protocol (property C11): it runs the real app/scope, eventscope and contextscope packages.
 //
 //	scope drive                 op lines on stdin -> one result line per op (same format as m_scope)
-//	scope gen <n> [<shard>]     n random histories (reset … settle); shard selects an independent stream
+//	scope gen <n> [<shard>]     n random histories (reset … settle); shard selects an independent stream;
+//	                            shard 0 starts with the deterministic gated family (genAdversarial)
 //	scope oracle <n> [<shard>]  n random histories executed with root probes; the property's clauses
 //	                            are evaluated on the implementation alone (see oracle.go)
 //	scope judge                 the same evaluation for one history given on stdin
@@ -27,6 +28,15 @@ func shardRand(args []string, salt uint64) *hx.Rand {
 		}
 	}
 	return hx.NewRand(hx.SeedFromEnv()*1000003 + shard*7919 + salt)
+}
+
+func shardOf(args []string) int {
+	if len(args) > 0 {
+		if v, err := strconv.Atoi(args[0]); err == nil {
+			return v
+		}
+	}
+	return 0
 }
 
 func drive(w *bufio.Writer) {
@@ -59,7 +69,7 @@ func drive(w *bufio.Writer) {
 	h.cleanup()
 }
 
-func oracle(w *bufio.Writer, n int, r *hx.Rand) {
+func oracle(w *bufio.Writer, n int, r *hx.Rand, shard int) {
 	counts := map[string]int{}
 	fails, timeouts, noWatcher := 0, 0, false
 	{
@@ -70,7 +80,12 @@ func oracle(w *bufio.Writer, n int, r *hx.Rand) {
 	last := os.Getenv("SCOPE_LAST") // the history being executed is written here: if a goroutine of the
 	// implementation panics the process dies and the check finds the history in this file
 	for i := 0; i < n; i++ {
-		hist := genHistory(r, true, false)
+		var hist []string
+		if shard == 0 && i < nAdversarial {
+			hist = genAdversarial(i, true)
+		} else {
+			hist = genHistory(r, true, false)
+		}
 		if last != "" {
 			os.WriteFile(last, []byte(strings.Join(hist, "\n")+"\n"), 0o644)
 		}
@@ -183,13 +198,17 @@ func main() {
 		n, _ := strconv.Atoi(os.Args[2])
 		r := shardRand(os.Args[3:], 0)
 		for i := 0; i < n; i++ {
-			for _, l := range genHistory(r, false, true) {
+			hist := genHistory(r, false, true)
+			if shardOf(os.Args[3:]) == 0 && i < nAdversarial {
+				hist = genAdversarial(i, false) // the deterministic family first (shard 0)
+			}
+			for _, l := range hist {
 				fmt.Fprintln(w, l)
 			}
 		}
 	case "oracle":
 		n, _ := strconv.Atoi(os.Args[2])
-		oracle(w, n, shardRand(os.Args[3:], 0x5eed))
+		oracle(w, n, shardRand(os.Args[3:], 0x5eed), shardOf(os.Args[3:]))
 	case "judge":
 		judge(w)
 	default:
